@@ -260,6 +260,32 @@ def run(chk):
             ok = ok and np.allclose(np.array(rb["dynamics"][s].states), np.array(rf["dynamics"][s].states)[k:], rtol=0, atol=TOL)
         if not ok:
             chk.fail("restart-differs", f"PtTebd restarted from step {k} does not continue like the uninterrupted run to {T}", info)
+        # a pre-measurement control ON the restart step: the exported state already contains it (it acted before step k was
+        # recorded); the restarted object must not apply it a second time
+        if ci == 0 and k >= 1:
+            filt = np.kron(np.diag([1.0, 0.5]), np.diag([1.0, 0.5]))          # not idempotent, not trace preserving
+
+            def cc_at(times_):
+                c_ = ChainControl([2, 2, 2])
+                for _ in range(times_):
+                    c_.add_single_site_control(filt, 0, k, False)
+                return c_
+            f1 = make_tebd(chain_control=cc_at(1))
+            quiet(f1.compute, T, progress_type="silent")
+            a1 = make_tebd(chain_control=cc_at(1))
+            quiet(a1.compute, k, progress_type="silent")
+            b1 = make_tebd(start_mps=a1.get_augmented_mps(), start_step=k, start_time=a1.time(k), chain_control=cc_at(1))
+            quiet(b1.compute, T, progress_type="silent")
+            f2 = make_tebd(chain_control=cc_at(2))
+            quiet(f2.compute, T, progress_type="silent")
+            chk.search_cases += 1
+            st_ = lambda o_, lo: np.array([np.array(o_.get_results()["dynamics"][0].states)[lo:]])
+            info1 = {"driver": "tebd-restart", "k": k, "T": T, "pre_control_on_restart_step": True}
+            if not np.allclose(st_(b1, 0), st_(f1, k), rtol=0, atol=TOL):
+                twice = np.allclose(st_(b1, 0), st_(f2, k), rtol=0, atol=TOL)
+                chk.fail("restart-reapplies-pre-control" if twice else "restart-differs",
+                         f"PtTebd restarted from step {k}, which carries a pre-measurement control: the restarted run " +
+                         ("applies that control a second time" if twice else "does not continue like the uninterrupted run"), info1)
         exprs.append(f"let s0 := compute (list nat) [] (fun l k => l ++ [k]) {k} (fresh _ []) in "
                      f"map fst (dyn _ (compute (list nat) [] (fun l k => l ++ [k]) {T} (restart_from _ s0)))")
         expected.append([int(round(x / DT)) for x in rb["time"]])
